@@ -79,6 +79,26 @@ pub fn gen_scripted_source(g: &mut Gen, o: &ScriptOpts, repl: Repl) -> usize {
         scripts.push(gen_script(g.t, &mut id, o, empty, no_wm));
         g.next_id = id;
     }
+    // one origin of the time axis per scenario: the watermark contract is translation invariant
+    let base = match g.ts_base {
+        Some(b) => b,
+        None => {
+            let b = [0i64, 0, 0, 1000, 7, -1_000_000_000][g.t.draw(6) as usize];
+            g.ts_base = Some(b);
+            b
+        }
+    };
+    if base != 0 {
+        for s in scripts.iter_mut() {
+            for ev in s.iter_mut() {
+                match ev {
+                    Ev::El(e) => e.ts -= base,
+                    Ev::Wm(w) => *w -= base,
+                    _ => {}
+                }
+            }
+        }
+    }
     let total: usize = scripts.iter().map(|s| s.len()).sum();
     let si = g.sources.len();
     g.sources.push(Src::Scripted(scripts, repl));
@@ -563,6 +583,17 @@ fn gen_spec(g: &mut Gen, depth: usize, in_len: usize, o: &LoopOpts) -> LoopSpec 
                 b.un(op);
             }
             2 => b.un(UnOp::Shuffle),
+            3 if g.t.draw(4) == 3 => {
+                // a count window in the body: its slots are per-round state
+                let op = match g.gen_count_window() {
+                    UnOp::WinAll(k, a) | UnOp::Win(k, a) => {
+                        let a = if iterate && a == WinAgg::Chain { WinAgg::Sum } else { a };
+                        UnOp::Win(k, a)
+                    }
+                    op => op,
+                };
+                b.un(op);
+            }
             3 => {
                 let op = match g.gen_gb() {
                     UnOp::Gb(GbForm::RichCounter, a) => UnOp::Gb(GbForm::Fold, a),
@@ -606,6 +637,10 @@ fn gen_spec(g: &mut Gen, depth: usize, in_len: usize, o: &LoopOpts) -> LoopSpec 
                 let est = in_len * 2 * n / (keys as usize).max(1);
                 let bop = match k {
                     6 => BinOp::Merge,
+                    // the keyed-stream joins keep their own per-round flags: every third join
+                    7 if ((!iterate && est <= 4000) || unique_side) && g.t.draw(3) == 2 => {
+                        BinOp::Join([JoinKind::Inner, JoinKind::Outer][g.t.draw(2) as usize], JoinForm::Keyed)
+                    }
                     7 if (!iterate && est <= 4000) || unique_side => g.gen_join(),
                     7 => BinOp::Merge,
                     _ => BinOp::Zip,
